@@ -301,7 +301,7 @@ func genSeq(r *core.Rand) (Seq, State) {
 			}
 			op = Op{Kind: "news-delete-item", Path: p}
 		case 8:
-			op = Op{Kind: "account-create", Login: fmt.Sprintf("user%d", uniq), Name: "Name " + string(r.Printable(5)), Access: hex.EncodeToString(rc.Bitmap(core.Pick(r, fixture.DefinedBits()), 2)), PW: fmt.Sprintf("pw%d", uniq)}
+			op = Op{Kind: "account-create", Login: fmt.Sprintf("user%d", uniq), Name: core.Pick(r, []string{"Name " + string(r.Printable(5)), "Name " + string(r.Printable(5)), ""}), Access: hex.EncodeToString(rc.Bitmap(core.Pick(r, fixture.DefinedBits()), 2)), PW: fmt.Sprintf("pw%d", uniq)}
 		case 9:
 			l := acc()
 			if l == "" {
@@ -311,7 +311,7 @@ func genSeq(r *core.Rand) (Seq, State) {
 			if r.Bool() {
 				nl = fmt.Sprintf("renamed%d", uniq)
 			}
-			op = Op{Kind: "account-update", Login: l, NewLogin: nl, Name: "Changed " + string(r.Printable(5)), Access: hex.EncodeToString(rc.Bitmap(core.Pick(r, fixture.DefinedBits()))), PW: fmt.Sprintf("newpw%d", uniq)}
+			op = Op{Kind: "account-update", Login: l, NewLogin: nl, Name: core.Pick(r, []string{"Changed " + string(r.Printable(5)), "Changed " + string(r.Printable(5)), ""}), Access: hex.EncodeToString(rc.Bitmap(core.Pick(r, fixture.DefinedBits()))), PW: fmt.Sprintf("newpw%d", uniq)}
 		case 10:
 			l := acc()
 			if l == "" {
